@@ -171,6 +171,7 @@ def eqv : Ext α → Ext α → Prop
 def le [LT α] (a b : Ext α) : Prop := lt a b ∨ eqv a b
 
 def isNan : Ext α → Bool | nan => true | _ => false
+def isFin : Ext α → Bool | fin _ => true | _ => false
 end Ext
 
 namespace K4
